@@ -97,6 +97,11 @@ def gen(chk):
             for mut in (None, "control"):
                 c = S.build(rng, "p2tr-path", wn=wn, ht=0, mutate=mut, annex=annex)
                 sess.append("spend id=t%d_%sannex%d tx=%s txin=%s flags=%d cmds=c" % (wn, mut, k, c["spend"].encode().hex(), c["fund"].encode().hex(), 0x1FFFDF))
+    # an EMPTY leaf script (nothing to execute: the commitment check is all there is - F54) under paths of length 0, 1, 2, 5
+    for wn in (0, 1, 2, 5):
+        for mut in (None, "control"):
+            c = S.build(rng, "p2tr-empty", wn=wn, ht=0, mutate=mut)
+            sess.append("spend id=t%d_%sannex9 tx=%s txin=%s flags=%d cmds=c" % (wn, mut, c["spend"].encode().hex(), c["fund"].encode().hex(), 0x1FFFDF))
     # control blocks of illegal sizes (refused before any hashing): 0, 1, 2, 32, 34, 64, 66 bytes
     for n in (0, 1, 2, 32, 34, 64, 66):
         c = S.build(rng, "p2tr-path", wn=1, ht=0, mutate="ctlsize:%d" % n)
